@@ -1,7 +1,9 @@
 (* OvbaDir — the VBA project directory ("dir" stream) and module extraction (property C18).
    M: src/vba.rs [read_dir_information], [Reference::from_stream] (+ [set_libid]),
-      [read_modules], [read_variable_record], [check_variable_record], [check_record] and
-      [VbaProject::from_cfb], statement by statement, on byte lists.
+      [read_modules], [read_variable_record], [check_variable_record], [check_record], [skip] and
+      [VbaProject::from_cfb], statement by statement, on byte lists (the code as hardened: every
+      length, skip and offset taken from the stream is checked and answers an error; there is
+      no panic site left in this part — theorem vba_project_total).
    S/E: a project description ([proj]) and the MS-OVBA 2.3.4.2 writer of its dir stream
       ([encode_dir]); the container of a whole project ([project_streams]).
    Outside the model (parameters of the section): the code-page decoder of encoding_rs
@@ -32,9 +34,9 @@ Definition cp_known (cp : N) : bool := existsb (N.eqb cp) CODE_PAGES.
 (* ------------------------------------------------------------------------------------------ *)
 (* reading primitives on [stream : &mut &[u8]]                                                  *)
 (* ------------------------------------------------------------------------------------------ *)
-(* *stream = &stream[n..]; *)
+(* skip(stream, n)?  =  *stream = stream.get(n..).ok_or_else(unexpected_eof)?; *)
 Definition advance (n : N) (s : list N) : outcome (list N) :=
-  if N.of_nat (length s) <? n then Panic else Ok (skipn (N.to_nat n) s).
+  if N.of_nat (length s) <? n then Err E_IO else Ok (skipn (N.to_nat n) s).
 
 (* stream.read_u16::<LittleEndian>() / read_u32: io::Read on a slice, UnexpectedEof when short *)
 Definition rd_u16 (s : list N) : outcome (N * list N) :=
@@ -49,10 +51,10 @@ Definition rd_u32 (s : list N) : outcome (N * list N) :=
   end.
 
 (* read_variable_record(r, 1): let len = r.read_u32()? as usize * 1;
-   let (read, next) = r.split_at(len);  -- panics when len > r.len() *)
+   if len > r.len() { return Err(unexpected_eof()); }  let (read, next) = r.split_at(len); *)
 Definition read_variable_record (s : list N) : outcome (list N * list N) :=
   do (len, s1) <- rd_u32 s;
-  if N.of_nat (length s1) <? len then Panic
+  if N.of_nat (length s1) <? len then Err E_IO
   else Ok (firstn (N.to_nat len) s1, skipn (N.to_nat len) s1).
 
 Definition check_record (id : N) (s : list N) : outcome (list N) :=
@@ -77,11 +79,16 @@ Variable decode : N -> list N -> list N.
 (* ------------------------------------------------------------------------------------------ *)
 Definition read_dir_information (s : list N) : outcome (N * list N) :=
   do s <- advance 10 s;                                   (* PROJECTSYSKIND *)
-  do compat <- read_u16 s;                                (* read_u16(&stream[0..2]) *)
-  do s <- (if compat =? 0x004A then advance 10 s else Ok s);   (* PROJECTCOMPATVERSION *)
+  (* if stream.get(0..2).map(read_u16) == Some(0x004A) { skip(stream, 10)?; } *)
+  let compat := match s with a :: b :: _ => Some (a + 256 * b) | _ => None end in
+  do s <- (match compat with
+           | Some c => if c =? 0x004A then advance 10 s else Ok s   (* PROJECTCOMPATVERSION *)
+           | None => Ok s
+           end);
   do s <- advance 20 s;                                   (* PROJECTLCID, PROJECTLCIDINVOKE *)
-  do cp <- (if N.of_nat (length s) <? 8 then Panic        (* read_u16(&stream[6..8]) *)
-            else read_u16 (skipn 6 s));
+  (* stream.get(6..8).map(read_u16).ok_or_else(unexpected_eof)? *)
+  do cp <- (if N.of_nat (length s) <? 8 then Err E_IO
+            else match skipn 6 s with a :: b :: _ => Ok (a + 256 * b) | _ => Err E_IO end);
   if negb (cp_known cp) then Err E_CODEPAGE               (* XlsEncoding::from_codepage(..)? *)
   else
     do s <- advance 8 s;
@@ -146,26 +153,44 @@ Definition strip_c (l : list N) : list N :=
   | _ => l
   end.
 
-Definition push_named (refs : list reference) (cur : reference) : list reference :=
-  if is_empty (r_name cur) then refs else refs ++ [cur].
+Definition empty_ref : reference := mkref [] [] [].
 
-(* one iteration of the loop of Reference::from_stream: Break = the [break] of the 0x000F arm *)
-Definition ref_state : Type := (list reference * reference * list N)%type.
+(* if complete || !reference.name.is_empty() { references.push(reference); } *)
+Definition push_ref (refs : list reference) (cur : reference) (complete : bool) : list reference :=
+  if complete || negb (is_empty (r_name cur)) then refs ++ [cur] else refs.
+
+(* matches!(check, 0x0033 | 0x002F | 0x000D | 0x000E) *)
+Definition is_ref_record (check : N) : bool :=
+  (check =? 0x0033) || (check =? 0x002F) || (check =? 0x000D) || (check =? 0x000E).
+
+(* if complete && matches!(check, …) { references.push(reference); reference = Reference::empty;
+   complete = false; } — a reference record met after a complete reference starts a new,
+   nameless one (MS-OVBA 2.3.4.2.2.1: the NameRecord of a REFERENCE is optional) *)
+Definition start_nameless (check : N) (st : list reference * reference * bool)
+  : list reference * reference * bool :=
+  let '(refs, cur, complete) := st in
+  if complete && is_ref_record check then (refs ++ [cur], empty_ref, false) else st.
+
+(* one iteration of the loop of Reference::from_stream: Break = the [break] of the 0x000F arm.
+   State: references, reference, complete (the current reference has received its reference
+   record), stream *)
+Definition ref_state : Type := (list reference * reference * bool * list N)%type.
 
 Definition ref_step (cp : N) (st : ref_state)
   : outcome (loop_ctl ref_state (list reference * list N)) :=
-  let '(refs, cur, s) := st in
+  let '(refs, cur, complete, s) := st in
   do (check, s) <- rd_u16 s;
-  if check =? 0x000F then Ok (Break (push_named refs cur, s))
+  let '(refs, cur, complete) := start_nameless check (refs, cur, complete) in
+  if check =? 0x000F then Ok (Break (push_ref refs cur complete, s))
   else if check =? 0x0016 then                            (* REFERENCENAME *)
-    let refs := push_named refs cur in
+    let refs := push_ref refs cur complete in
     do (name, s) <- read_variable_record s;
     let name := decode cp name in
     do (_, s) <- check_variable_record 0x003E s;
-    Ok (Continue (refs, mkref name name [], s))
+    Ok (Continue (refs, mkref name name [], false, s))
   else if check =? 0x0033 then                            (* REFERENCEORIGINAL *)
     do (cur, s) <- set_libid cp cur s;
-    Ok (Continue (refs, cur, s))
+    Ok (Continue (refs, cur, complete, s))
   else if check =? 0x002F then                            (* REFERENCECONTROL *)
     do s <- advance 4 s;
     do (cur, s) <- set_libid cp cur s;
@@ -180,19 +205,19 @@ Definition ref_step (cp : N) (st : ref_state)
     do s <- advance 4 s;
     do (cur, s) <- set_libid cp cur s;
     do s <- advance 26 s;
-    Ok (Continue (refs, cur, s))
+    Ok (Continue (refs, cur, true, s))
   else if check =? 0x000D then                            (* REFERENCEREGISTERED *)
     do s <- advance 4 s;
     do (cur, s) <- set_libid cp cur s;
     do s <- advance 6 s;
-    Ok (Continue (refs, cur, s))
+    Ok (Continue (refs, cur, true, s))
   else if check =? 0x000E then                            (* REFERENCEPROJECT *)
     do s <- advance 4 s;
     do (absolute, s) <- read_variable_record s;
     let cur := mkref (r_name cur) (r_desc cur) (strip_c (decode cp absolute)) in
     do (_, s) <- read_variable_record s;
     do s <- advance 6 s;
-    Ok (Continue (refs, cur, s))
+    Ok (Continue (refs, cur, true, s))
   else Err E_UNKNOWN.
 
 (* loop { … }: every iteration consumes at least the two id bytes, so 1 + the number of bytes
@@ -208,9 +233,8 @@ Fixpoint refs_loop (fuel : nat) (cp : N) (st : ref_state) : outcome (list refere
     end
   end.
 
-Definition empty_ref : reference := mkref [] [] [].
 Definition references_from_stream (cp : N) (s : list N) : outcome (list reference * list N) :=
-  refs_loop (S (length s)) cp ([], empty_ref, s).
+  refs_loop (S (length s)) cp ([], empty_ref, false, s).
 
 (* ------------------------------------------------------------------------------------------ *)
 (* modules                                                                                      *)
@@ -479,30 +503,27 @@ Definition valid_ref_kindb (k : ref_kind) : bool :=
     (match next with Some (n, nu) => lenb n && lenb nu | None => true end) &&
     lenb lext && (N.of_nat (length guid) =? 16) && u32b cookie
   end.
-Definition valid_refb (decode : N -> list N -> list N) (cp : N) (r : ref_spec) : bool :=
-  (if rs_named r
-   then lenb (rs_name r) && lenb (rs_name_u r) && negb (is_empty (decode cp (rs_name r)))
-   else true) &&
+Definition valid_refb (r : ref_spec) : bool :=
+  (if rs_named r then lenb (rs_name r) && lenb (rs_name_u r) else true) &&
   valid_ref_kindb (rs_kind r).
 Definition valid_modb (m : mod_spec) : bool :=
   lenb (ms_name m) && lenb (ms_name_u m) && lenb (ms_stream m) && lenb (ms_stream_u m) &&
   lenb (ms_doc m) && lenb (ms_doc_u m) && u32b (ms_offset m) && u32b (ms_helpctx m) &&
   u16b (ms_cookie m).
-Definition valid_projb (decode : N -> list N -> list N) (p : proj) : bool :=
+Definition valid_projb (p : proj) : bool :=
   u32b (p_syskind p) && (match p_compat p with Some v => u32b v | None => true end) &&
   u32b (p_lcid p) && u32b (p_lcid_invoke p) && cp_known (p_codepage p) &&
   lenb (p_name p) && lenb (p_doc p) && lenb (p_doc_u p) && lenb (p_help1 p) && lenb (p_help2 p) &&
   u32b (p_helpctx p) && u32b (p_libflags p) && u32b (p_vmajor p) && u16b (p_vminor p) &&
   lenb (p_const p) && lenb (p_const_u p) &&
-  forallb (valid_refb decode (p_codepage p)) (p_refs p) &&
+  forallb valid_refb (p_refs p) &&
   forallb valid_modb (p_mods p) && u16b (N.of_nat (length (p_mods p))) && u16b (p_cookie p).
 
-(* classes of valid descriptions on which the current code is known to deviate:
-   1 = some REFERENCE has no NameRecord: Reference::from_stream keeps one "current" reference
-       and only starts a new one at a REFERENCENAME record, so the nameless reference is not
-       listed and its libid overwrites the description of the reference before it *)
-Definition known_C18_dir (p : proj) : option N :=
-  if forallb rs_named (p_refs p) then None else Some 1.
+(* classes of valid descriptions on which the current code is known to deviate: none.
+   (Class 1, a REFERENCE without its optional NameRecord, was repaired in vba.rs by the fix:
+   commit "vba references without a name record …"; [ref_step] above mirrors the repaired loop.)
+   Kept, constantly [None], for the wire format of the drivers. *)
+Definition known_C18_dir (p : proj) : option N := None.
 
 (* --- a whole project: the dir stream under some valid compression, and one stream per module
    holding [offset] bytes of performance cache followed by the compressed source --- *)
